@@ -51,6 +51,13 @@ def main():
         for shp in shapes_for(n)[: (1 if t == "quick" and n_eval % 3 else None)]:
             F, G = f.reshape(shp), g.reshape(shp)
             sc = {"kind": "enumerated", "f": e["f"], "g": e["g"], "shape": list(shp)}
+            # the same values in different memory layouts (Fortran order, a transposed view): results are per logical cell
+            lay = n_eval % 3
+            if lay == 1:
+                F, G = np.asfortranarray(F), np.asfortranarray(G)
+            elif lay == 2:
+                G = np.ascontiguousarray(G.T).T
+            sc["layout"] = ["C", "Fortran", "transposed view of g"][lay]
             R = np.asarray(get_source_area(F, G), dtype=float)
             n_eval += 1
             if R.shape != tuple(shp):
@@ -111,6 +118,11 @@ def main():
             G = source_area_sector(X, Y, meas, wind)
         else:
             G = rng.integers(0, 4, size=(ny, nx)).astype(float)
+        lay = int(rng.integers(3))
+        if lay == 1:
+            F, G = np.asfortranarray(F), np.asfortranarray(G)
+        elif lay == 2:
+            G = np.ascontiguousarray(G.T).T
         R = np.asarray(get_source_area(F, G), dtype=float)
         pn, pd = int(rng.integers(1, 17)), 16
         threeD = bool(rng.random() < 0.3)
